@@ -18,4 +18,10 @@ theorem C11_src_label_after_write : allBefore writeExample "write" "set:custom_m
 theorem C11_src_change_test_first :
     (allBefore writeExample "cmp:NotEq" "close_shard" && allBefore writeExample "cmp:NotEq" "write") = true := by decide +kernel
 
+/-- "selecting shards by metadata": the selection is recomputed from the shard infos on every call — the predicate is applied
+(`filter`) to what `shard_info_iterator` enumerates now, and nothing is remembered on the dataset object between selections -/
+theorem C11_src_selection_recomputed :
+    (shardPathsDataset.head? == some "shard_info_iterator" && allBefore shardPathsDataset "shard_info_iterator" "filter"
+      && !hasSelfStore shardPathsDataset && !hasSelfStore asNumpyCommon) = true := by decide +kernel
+
 end Sedpack.Src
